@@ -635,7 +635,7 @@ func (w *world) buildTemplate(inc *incM, kind string) *tmpl {
 	panic("nfs41sim: unknown template " + kind)
 }
 
-var templateKinds = []string{"open", "open", "open_then", "open_fh", "open_previous", "open_deleg", "open_deny", "rename", "link", "close", "downgrade", "lock_new", "lock_existing", "lockt", "locku", "free_stateid", "test_stateid", "read", "write", "setattr", "remove", "lookup", "probe", "noop", "reclaim_complete", "illegal_op"}
+var templateKinds = []string{"too_many_ops", "max_ops", "open", "open", "open_then", "open_fh", "open_previous", "open_deleg", "open_deny", "rename", "link", "close", "downgrade", "lock_new", "lock_existing", "lockt", "locku", "free_stateid", "test_stateid", "read", "write", "setattr", "remove", "lookup", "probe", "noop", "reclaim_complete", "illegal_op"}
 
 // illegalOpBases: what a COMPOUND executes before it reaches an operation
 // NFSv4.1 does not have.
@@ -648,21 +648,7 @@ func (w *world) seqAction(kind string, forcePark bool) *call {
 	if sess == nil {
 		return nil
 	}
-	t := w.buildTemplate(sess.inc, kind)
-	if !forcePark && w.pct("dropPutFH", 3) {
-		t = w.withoutFileHandle(t)
-	}
-	plan := map[string]bool{}
-	if len(t.parkOK) > 0 && (forcePark || w.pct("park", w.p.parkPct)) {
-		plan[pick(w, "parkAt", t.parkOK)] = true
-	}
-	if len(t.faultOK) > 0 && w.p.faultPct > 0 && w.pct("fault", w.p.faultPct) {
-		site := pick(w, "faultSite", t.faultOK)
-		plan["fault:"+site+":"+pick(w, "faultStatus", faultKinds[site])] = true
-	}
-	c := w.sendSeq(sess, slot, sess.slots[slot].lastSeq+1, "new", t, w.pct("cachethis", w.p.cachePct), plan, nil)
-	w.learnSessionFate(c)
-	return c
+	return w.seqActionOn(sess, slot, kind, forcePark)
 }
 
 // illegalOpAction sends a COMPOUND with an operation NFSv4.1 does not
@@ -725,7 +711,7 @@ func (w *world) falseRetryOn(r slotRef, inflight bool, variantPct int) {
 	if w.pct("falseRetryVariantOfOriginal", variantPct) {
 		t = w.tFalseRetryVariant(r.s.inc, orig)
 	} else {
-		t = w.buildTemplate(r.s.inc, pick(w, "template", templateKinds))
+		t = w.buildTemplateFor(r.s, pick(w, "template", templateKinds))
 	}
 	w.sendSeq(r.s, r.slot, seq, "false_retry", t, w.pct("cachethis", w.p.cachePct), nil, nil)
 }
@@ -803,6 +789,7 @@ func (w *world) presetSlot(r slotRef, v uint32) {
 		w.failf("C19: %s slot %d is idle and its session exists according to the replies, but the server considers the slot busy or the session gone (VerifSetSlotSequenceID refused)", r.s, r.slot)
 	}
 	sl.lastSeq, sl.last, sl.preset = v, nil, true
+	sl.dropped, sl.refused = nil, nil
 	w.label("slot_sequence_preset")
 	w.checkQuiescent()
 }
@@ -960,6 +947,8 @@ func (w *world) doStepInner(op string) {
 		w.replayOf(pick(w, "slotRef", w.preferHot(cands)))
 	case "illegal_op":
 		w.illegalOpAction()
+	case "too_many_ops":
+		w.tooManyOpsAction()
 	case "dup":
 		if w.p.excludeDup {
 			w.excl["duplicate of a request that is still being processed (open known finding)"]++
@@ -997,7 +986,7 @@ func (w *world) doStepInner(op string) {
 		r := pick(w, "slotRef", w.preferHot(cands))
 		sl := r.s.slots[r.slot]
 		delta := pick(w, "seqDelta", []uint32{2, 3, 17, 1 << 31, ^uint32(0), ^uint32(1)})
-		t := w.buildTemplate(r.s.inc, pick(w, "template", []string{"open", "close", "lock_new", "remove", "write", "free_stateid"}))
+		t := w.buildTemplateFor(r.s, pick(w, "template", []string{"open", "close", "lock_new", "remove", "write", "free_stateid", "too_many_ops"}))
 		c := w.sendSeq(r.s, r.slot, sl.lastSeq+delta, "misordered", t, w.pct("cachethis", w.p.cachePct), nil, nil)
 		w.learnSessionFate(c)
 	case "stale_busy":
@@ -1016,7 +1005,7 @@ func (w *world) doStepInner(op string) {
 			return
 		}
 		s := pick(w, "session", all)
-		t := w.buildTemplate(s.inc, pick(w, "template", []string{"open", "remove", "noop"}))
+		t := w.buildTemplateFor(s, pick(w, "template", []string{"open", "remove", "noop", "too_many_ops"}))
 		w.sendSeq(s, uint32(slotsPerSess+w.draw("slotExcess", 0, 2)), 1, "bad_slot", t, false, nil, nil)
 	case "bad_session":
 		var dead []*sessM
@@ -1035,7 +1024,7 @@ func (w *world) doStepInner(op string) {
 				s.slots = append(s.slots, &slotM{})
 			}
 		}
-		t := w.buildTemplate(s.inc, pick(w, "template", []string{"open", "remove", "noop"}))
+		t := w.buildTemplateFor(s, pick(w, "template", []string{"open", "remove", "noop", "too_many_ops"}))
 		slot := uint32(w.draw("slot", 0, slotsPerSess-1))
 		c := w.sendSeq(s, slot, s.slots[slot].lastSeq+1, "bad_session", t, false, nil, nil)
 		w.learnSessionFate(c)
